@@ -6,7 +6,7 @@ NOTE = ("Trusted: Coq 8.16 kernel, extraction (ExtrOcamlBasic/ExtrOcamlString), 
         "translator, Python harness (generators, ANTLR parse-tree elaboration, audit), the reading of the specification in Lang/*.v "
         "and Ssb/Machine.v; not modelled: compiler handler classes, igraph structuring passes and writers, ANTLR runtime, Pygments.")
 spec = {
- "C01": (tv, "Coq-verified translation validator (bisimulation checker with soundness theorem) on real compiler output, end to end and stage by stage; label resolution of the back end proved behaviour preserving for all inputs (premises evaluated on every captured compilation)",
+ "C01": (tv, "Coq-verified translation validator (bisimulation checker with soundness theorem) on real compiler output, end to end and stage by stage; the compiler's back end (strip_last_label, LabelFinalizer, OpsLabelJumpToRemover) proved behaviour preserving for all inputs in Coq (premises evaluated on every captured compilation, pass models tied by C03's correspondence)",
    "Every generated program accepted by the real compiler is decided, for all routines and all outcomes of all tests, by a bisimulation checker extracted from Coq whose soundness (accept => equal sequences of operations and tests under every oracle, unbounded length) is kernel-checked (Ssb/EquivSound.v); source meaning = Lang/SrcSem.v. The universal statement over all programs is not proved."),
  "C02": (tv, "Coq-verified translation validator on real decompiler output (text read by the spec and recompiled, both compared with the input)",
    "For every generated well-formed routine set the decompiled text must compile, and both the text read by Lang/SrcSem.v and its recompilation must be accepted as behaviourally equal to the input by the Coq-verified checker; routine tables compared. Universal claim not proved (structuring passes are not modelled)."),
